@@ -93,7 +93,10 @@ def ledger_monitor(ctx, tr, ix):
                 elif api == "finance":
                     ghost += args[0]
                 elif api == "repay":
-                    ghost -= args[0]
+                    owed = ((e.get("before") or {}).get("STOCK") or {}).get("liab")
+                    ghost -= args[0] if owed is None else min(args[0], owed)       # a repayment takes at most what is owed out of the account
+                    if owed is not None and args[0] > owed:
+                        ctx.stats["repayments_above_the_debt"] += 1
             elif api in ("deposit", "withdraw", "finance", "repay"):
                 b0, b1 = (e.get("before") or {}).get("STOCK"), (e.get("after") or {}).get("STOCK")
                 if b0 is not None and b1 is not None and (b0["total_cash"] != b1["total_cash"] or b0["pending"] != b1["pending"] or b0["liab"] != b1["liab"]):
